@@ -3,6 +3,7 @@ package streamfilter
 import (
 	internaltypes "lunar/engine/streams/internal-types"
 	publictypes "lunar/engine/streams/public-types"
+	"lunar/engine/utils"
 
 	"github.com/rs/zerolog/log"
 )
@@ -59,8 +60,16 @@ func (node *FilterNode) isStatusCodeQualified(
 		return true
 	}
 
+	// A status requirement can only be met by a response that has a status. After an early
+	// response the stream is handled as a response although no response object exists.
+	response := APIStream.GetResponse()
+	if utils.IsInterfaceNil(response) {
+		log.Trace().Msgf("No response to check the status code of on Flow: %s", flow.GetName())
+		return false
+	}
+
 	for _, statusCode := range allowedStatusCodes {
-		if statusCode == APIStream.GetResponse().GetStatus() {
+		if statusCode == response.GetStatus() {
 			log.Trace().Msgf("Status code is qualified for Flow: %s", flow.GetName())
 			return true
 		}
